@@ -1073,6 +1073,7 @@ class System(BaseModel, Serializable):
 
                 residual_hist = deque(maxlen=anderson_mem)
                 coupling_hist = deque(maxlen=anderson_mem)
+                scc_written = {}  # (ordered) record of every output computed inside this SCC
 
                 def _end_conditions_met():
                     """Helper to compute residual, update history, and check end conditions."""
@@ -1103,7 +1104,7 @@ class System(BaseModel, Serializable):
                     if k >= max_fpi_iter:
                         self.logger.warning(f'FPI did not converge in {max_fpi_iter} iterations for SCC {scc}: '
                                             f'{max_error} > tol {fpi_tol}. Some samples will be returned as NaN.')
-                        for var in coupling_prev:
+                        for var in scc_written:  # every output of the loop, not only the coupling variables
                             y[var][~samples.converged_idx, ...] = np.nan
                         samples.valid_idx = np.logical_and(samples.valid_idx, samples.converged_idx)
                         return True
@@ -1135,6 +1136,7 @@ class System(BaseModel, Serializable):
                                 norm_status[var] = not call_model
                                 is_computed[var] = True
                             y[var][samples.curr_idx, ...] = arr
+                            scc_written[var] = True
 
                     # Compute residual and check end conditions
                     if _end_conditions_met():
